@@ -111,6 +111,9 @@ func (vc *FuncVC) stepContract(st *State) *Contract {
 	if st.fr.caller == nil {
 		return vc.con
 	}
+	if c := vc.g.DB.Funcs[ShortName(st.fr.fn)+"@step"]; c != nil {
+		return c
+	}
 	if c := vc.g.DB.Funcs[ShortName(st.fr.fn)]; c != nil && c.Mode == "step" {
 		return c
 	}
